@@ -135,6 +135,19 @@ def audit(pid):
     return thms, r.stdout, r.returncode
 
 
+def audit_module(module, ns):
+    """the theorems of namespace `ns` (defined in lean module `module`) with their axioms"""
+    path = os.path.join(BUILD, "audit_%s.lean" % ns.replace(".", "_"))
+    open(path, "w").write("import %s\nimport UnicLocale.Audit\n#audit_ns %s\n" % (module, ns))
+    r = sh(["lake", "env", "lean", path], cwd=LEAN)
+    thms = []
+    for line in r.stdout.splitlines():
+        m = re.match(r"^AUDIT (\S+) \[(.*)\]$", line)
+        if m:
+            thms.append((m.group(1), [a for a in m.group(2).split(",") if a]))
+    return thms, r.returncode
+
+
 FORBIDDEN = re.compile(r"sorry|admit|^axiom |native_decide|bv_decide|implemented_by|unsafe |maxHeartbeats 0")
 
 
